@@ -268,6 +268,37 @@ struct HdrSession {
                 st->hist_bits = hb;
                 st->end_of_stream = 1;
                 st->flush = NO_FLUSH;
+                // now and then the application has first used the same stream to render a header of its own into a side buffer
+                // (isal_write_zlib_header / isal_write_gzip_header): that is no reason for the codec to leave its own header out
+                int prior_write = (int) ((uint64_t) c.geti("prior_write") % 3);
+                if (prior_write) {
+                        Slot *side = g_arena.alloc(64, PLACE_END, "side_hdr", fill + 9, 1);
+                        Slot *sh = g_arena.alloc(prior_write == 1 ? sizeof(struct isal_zlib_header) : sizeof(struct isal_gzip_header), PLACE_END, "hdr_struct", fill + 10, 8);
+                        if (!side || !sh)
+                                return;
+                        st->next_out = side->data;
+                        st->avail_out = 64;
+                        uint32_t wr = 0;
+                        if (prior_write == 1) {
+                                struct isal_zlib_header *zh = (struct isal_zlib_header *) sh->data;
+                                isal_zlib_header_init(zh);
+                                zh->info = 7;
+                                if (GUARDED(gc, wr = isal_write_zlib_header(st, zh))) {
+                                        report_fault(rr, h, gc.fi, "isal_write_zlib_header");
+                                        return;
+                                }
+                        } else {
+                                struct isal_gzip_header *gh = (struct isal_gzip_header *) sh->data;
+                                isal_gzip_header_init(gh);
+                                if (GUARDED(gc, wr = isal_write_gzip_header(st, gh))) {
+                                        report_fault(rr, h, gc.fi, "isal_write_gzip_header");
+                                        return;
+                                }
+                        }
+                        h.rec("prior_hdr_write", { prior_write, wr });
+                        st->total_out = 0;
+                        COUNT("cfg.header_written_by_hand_before_codec_header");
+                }
                 st->next_in = si->data;
                 st->avail_in = (uint32_t) data.size();
                 std::vector<uint8_t> got;
@@ -821,7 +852,7 @@ static Json gen_hdr(Rng &r0, const std::string &focus, int tier)
         zl.set("info", (int) r.below(8)).set("level", (int) r.below(4)).set("fdict", (int) r.below(2)).set("dictid", r.chance(1, 2) ? 0x11223344u : r.chance(1, 2) ? r.pick(edge32) : r.u32());
         p.set("zl", zl);
         Json cd = Json::obj();
-        cd.set("level", (int) r.below(4)).set("hb", (int) (r.chance(1, 4) ? 0 : 9 + r.below(7))).set("api", (int) r.below(2)).set("zlib", (int) r.chance(2, 3)).set("k", (int) r.below(DK_NKINDS)).set("n", (int) r.logsize(2999)).set("s", r.u64() >> 20).set("lbc", (int) r.below(5));
+        cd.set("level", (int) r.below(4)).set("hb", (int) (r.chance(1, 4) ? 0 : 9 + r.below(7))).set("api", (int) r.below(2)).set("zlib", (int) r.chance(2, 3)).set("k", (int) r.below(DK_NKINDS)).set("n", (int) r.logsize(2999)).set("s", r.u64() >> 20).set("lbc", (int) r.below(5)).set("prior_write", r.chance(1, 4) ? (int) (1 + r.below(2)) : 0);
         p.set("codec", cd);
         int64_t delta;
         uint64_t c = r.below(10);
